@@ -100,6 +100,13 @@ pub struct Scene {
     /// initial depth-buffer contents (reciprocal depth; 0 = cleared)
     pub bg_depth: X,
     pub cfg: Cfg,
+    /// 0: the fragment shader emits the attribute's bit pattern; 1: it emits round(attribute) as an
+    /// integer id (insensitive to last-bit differences between fan sub-triangles)
+    #[serde(default)]
+    pub shader_mode: u8,
+    /// true: every call passes the scene's full vertex array and only the faces select triangles
+    #[serde(default)]
+    pub shared_verts: bool,
 }
 
 pub fn sentinel_color(i: usize) -> u32 {
@@ -237,6 +244,7 @@ fn viewport_matrix(sc: &Scene) -> Mat4x4<re::render::NdcToScreen> {
 
 fn draw_into<T: Target>(sc: &Scene, which: &[usize], target: &mut T, ctx: &Context, calls: &Cell<u64>, somes: &Cell<u64>) {
     let discard = sc.cfg.discard;
+    let id_mode = sc.shader_mode == 1;
     let fs = move |f: Frag<f32>| -> Option<Color4> {
         calls.set(calls.get() + 1);
         if discard {
@@ -246,9 +254,14 @@ fn draw_into<T: Target>(sc: &Scene, which: &[usize], target: &mut T, ctx: &Conte
             }
         }
         somes.set(somes.get() + 1);
-        Some(color_of_bits(f.var.to_bits()))
+        Some(color_of_bits(if id_mode { f.var.round() as i64 as u32 } else { f.var.to_bits() }))
     };
-    let faces: Vec<Tri<usize>> = (0..which.len()).map(|i| Tri([3 * i, 3 * i + 1, 3 * i + 2])).collect();
+    let all: Vec<usize> = (0..sc.tris.len()).collect();
+    let (faces, which): (Vec<Tri<usize>>, &[usize]) = if sc.shared_verts {
+        (which.iter().map(|&t| Tri([3 * t, 3 * t + 1, 3 * t + 2])).collect(), &all[..])
+    } else {
+        ((0..which.len()).map(|i| Tri([3 * i, 3 * i + 1, 3 * i + 2])).collect(), which)
+    };
     match sc.door {
         Door::Render | Door::Batch => {
             let verts: Vec<Vertex<ClipVec, f32>> = which
